@@ -552,7 +552,8 @@ func (R *Run) ruleIDUnique() {
 			var lk *ssa.Lookup
 			cut := map[Edge]bool{}
 			zeroCut := map[Edge]bool{}
-			factEdges(fn, func(e Edge, f Fact) {
+			keyIsField := strings.Contains(keySym, "hotline.ClientConn.ID")
+			factEdgesImplied(fn, func(e Edge, f Fact) {
 				if f.Kind == "truth" {
 					if ex, ok := f.V.(*ssa.Extract); ok && ex.Index == 1 {
 						if l, ok := ex.Tuple.(*ssa.Lookup); ok && l.CommaOk {
@@ -567,7 +568,7 @@ func (R *Run) ruleIDUnique() {
 					// cc.ID != ClientID{} against a literal
 					if b, ok := f.V.(*ssa.BinOp); ok {
 						for _, pair := range [][2]ssa.Value{{b.X, b.Y}, {b.Y, b.X}} {
-							if fl, ok := loadedField(pair[0]); ok && fl == "hotline.ClientConn.ID" {
+							if fl, ok := loadedField(pair[0]); (ok && fl == "hotline.ClientConn.ID") || (!keyIsField && stripRecv(P.sym(pair[0])) == keySym) {
 								if bs, ok := P.bytesOf(pair[1]); ok && len(bs) == 2 && bs[0] == 0 && bs[1] == 0 {
 									isZero := f.Holds == (b.Op.String() == "==")
 									if !isZero {
@@ -579,10 +580,10 @@ func (R *Run) ruleIDUnique() {
 					}
 				}
 			})
-			factEdges(fn, func(e Edge, f Fact) {
+			factEdgesImplied(fn, func(e Edge, f Fact) {
 				// comparison with the zero value ClientID{} is rendered as a nil-kind fact
 				if f.Kind == "nil" {
-					if fl, ok := loadedField(f.V); ok && fl == "hotline.ClientConn.ID" {
+					if fl, ok := loadedField(f.V); (ok && fl == "hotline.ClientConn.ID") || (!keyIsField && stripRecv(P.sym(f.V)) == keySym) {
 						if !f.Holds {
 							zeroCut[e] = true
 						}
@@ -597,9 +598,31 @@ func (R *Run) ruleIDUnique() {
 					problems = append(problems, "the insertion is reachable on the edge where the ID is already present")
 				}
 				// no ID write between lookup and update
-				ok, _ := mustPassAfterUntil(lk, mu, func(ins ssa.Instruction) bool { return writesClientID(ins) })
-				if !ok {
-					problems = append(problems, "the connection's ID is rewritten between the membership test and the insertion")
+				if keyIsField {
+					ok, _ := mustPassAfterUntil(lk, mu, func(ins ssa.Instruction) bool { return writesClientID(ins) })
+					if !ok {
+						problems = append(problems, "the connection's ID is rewritten between the membership test and the insertion")
+					}
+				} else {
+					// the key is a local value (symbolically the same at the test and at the insertion): the connection
+					// must be given exactly that value as its ID before it is registered under it
+					given := false
+					eachInstr(fn, func(ins ssa.Instruction) {
+						if st, ok := ins.(*ssa.Store); ok && writesClientID(ins) {
+							if st.Block() != mu.Block() && !reachableFrom(st.Block(), nil)[mu.Block()] {
+								return // a write from which the insertion cannot be reached (the give-up path)
+							}
+							if stripRecv(P.sym(st.Val)) == keySym && instrDominates(st, mu) {
+								given = true
+							} else {
+								given = false
+								problems = append(problems, "the connection's ID is written with something else than the key it is registered under at "+P.ipos(st))
+							}
+						}
+					})
+					if !given {
+						problems = append(problems, "the connection is registered under a key that is not stored as its ID")
+					}
 				}
 				if len(zeroCut) == 0 || reachable(fn, zeroCut)[mu.Block()] {
 					problems = append(problems, "the reserved zero ID can be handed out")
